@@ -3,6 +3,7 @@ import SimilarVerif.Model.Text
 import SimilarVerif.Model.Udiff
 import SimilarVerif.Model.Remap
 import SimilarVerif.Model.Inline
+import SimilarVerif.Model.Helpers
 /-! Line-protocol driver: one request per line on stdin, one canonical response line on stdout.
 Imports the model only (core Lean), so it links natively. -/
 open SimilarVerif
@@ -167,7 +168,8 @@ def handleText (kind mode : String) (alg : Alg) (dl : Option Nat) (nlt : Option 
     let tn := (rn.map (slice new)).toArray
     (match textDiffOps alg false to tn { clock := dl } with
      | .ok (ops, _) =>
-       s!"ok N={to.size},{tn.size} O={showOps ops} T={if newlineTerminated nlt (kind == "lines") then 1 else 0} A={algName alg}"
+       let (x, y) := ratioPair ops to.size tn.size
+       s!"ok N={to.size},{tn.size} O={showOps ops} T={if newlineTerminated nlt (kind == "lines") then 1 else 0} A={algName alg} F={(ratioF (x / 2) y).toBits.toNat}"
      | .error .fuel => "fuel"
      | .error _ => "panic")
   | _, _ => "contract"
@@ -200,6 +202,19 @@ def parseHexU32 (s : String) : Option UInt32 :=
 
 def handle5 (hd a b c d : String) : String :=
   match words hd with
+  | ["helper", kind, mode, alg] =>
+    (match parseAlg alg, parseHex a, parseHex b, parseSegs c, parseSegs d with
+     | some alg, some old, some new, some so, some sn =>
+       (match tokenizeBy kind mode old so, tokenizeBy kind mode new sn with
+        | some ro, some rn =>
+          let r := if kind == "lines" then utilsDiffLines alg old new ro rn {} else utilsDiffRemap alg old new ro rn {}
+          (match r with
+           | .ok l => "ok H=" ++ ",".intercalate (l.map fun (t, b) =>
+               (match t with | .equal => "=" | .delete => "-" | .insert => "+") ++ showHex b)
+           | .error .fuel => "fuel"
+           | .error _ => "panic")
+        | _, _ => "contract")
+     | _, _, _, _, _ => "bad-op")
   | ["text", kind, mode, alg, dl, nlt] =>
     (match parseAlg alg, optNat dl, parseHex a, parseHex b, parseSegs c, parseSegs d with
      | some alg, some dl, some old, some new, some so, some sn =>
@@ -210,6 +225,7 @@ def handle5 (hd a b c d : String) : String :=
 
 def handle6 (hd a b c d e : String) : String :=
   match words hd with
+  | ["DUMMY"] => "bad-op"
   | ["inline", mode, dl] =>
     (match optNat dl, parseOps a, parseTokens b, parseTokens c, parseSegLines d, parseSegLines e with
      | some dl, some [x], some old, some new, some so, some sn =>
